@@ -420,6 +420,9 @@ def perturbations(spec_):
         out.append(('optdel:%s' % kind, path, 'optdel', None))
         if hasattr(sec, '_content'):
             out.append(('content:%s' % kind, path, 'content', None))
+            for name, val in content_variants(sec.data_type, sec._content):
+                out.append(('content:%s:%s' % (kind, name), path,
+                            'content-variant', name))
     for ci, c in enumerate(tree.changes):
         out.append(('add-file', 'change[%d]' % ci, 'addfile', None))
         if c.files:
@@ -435,8 +438,71 @@ def perturbations(spec_):
     return out
 
 
+def content_variants(t, cur):
+    """Contents that differ from `cur` only slightly (what a tolerant
+    comparison might ignore): all are != cur under Python equality."""
+    import unicodedata
+    out = []
+    if t is str:
+        cur = cur or ''
+        cand = [('bom-prepended', '\ufeff' + cur),
+                ('first-char-dropped', cur[1:]),
+                ('final-newline-dropped', cur.rstrip('\n')),
+                ('newline-appended', cur + '\n'),
+                ('space-appended', cur + ' '),
+                ('space-before-newline', cur[:-1] + ' \n' if
+                 cur.endswith('\n') else cur + ' '),
+                ('space-prepended', ' ' + cur),
+                ('upper', cur.upper()), ('crlf', cur.replace('\n', '\r\n')),
+                ('nfd', unicodedata.normalize('NFD', cur)),
+                ('zwsp-appended', cur + '\u200b'),
+                ('nul-appended', cur + '\x00'),
+                ('tab-for-space', cur.replace(' ', '\t')),
+                ('empty', '')]
+    elif t is bytes:
+        cur = cur or b''
+        cand = [('bom-prepended', b'\xef\xbb\xbf' + cur),
+                ('utf16-bom-prepended', b'\xff\xfe' + cur),
+                ('first-byte-dropped', cur[1:]),
+                ('final-newline-dropped', cur.rstrip(b'\n')),
+                ('newline-appended', cur + b'\n'),
+                ('crlf', cur.replace(b'\n', b'\r\n')),
+                ('upper', cur.upper()), ('nul-appended', cur + b'\x00'),
+                ('space-appended', cur + b' '), ('empty', b'')]
+    else:
+        cur = dict(cur or {})
+        cand = [('key-added', dict(cur, zz=None)),
+                ('key-case', {(k.upper() if isinstance(k, str) else k): v
+                              for k, v in cur.items()}),
+                ('empty', {})]
+        for k in sorted(cur, key=repr)[:2]:
+            v = cur[k]
+            if isinstance(v, str):
+                cand.append(('value-space', dict(cur, **{k: v + ' '})))
+                cand.append(('value-bom', dict(cur, **{k: '\ufeff' + v})))
+            elif isinstance(v, list):
+                cand.append(('list-reversed', dict(cur, **{k: v[::-1]})))
+                cand.append(('list-extended', dict(cur, **{k: v + [None]})))
+            elif isinstance(v, dict):
+                cand.append(('nested-key-added',
+                             dict(cur, **{k: dict(v, zz=0)})))
+            cand.append(('value-to-none', dict(cur, **{k: None})))
+            cand.append(('value-to-str', dict(cur, **{k: repr(v)})))
+    seen = []
+    for name, val in cand:
+        if val != cur and all(val != s_ for n_, s_ in seen):
+            seen.append((name, val))
+    return seen
+
+
 def perturb(tree, path, how, key):
     sec = resolve(tree, path)
+    if how == 'content-variant':
+        for name, val in content_variants(sec.data_type, sec._content):
+            if name == key:
+                sec._content = val
+                return True
+        return False
     if how == 'opt':
         old = sec.options.get(key)
         sec.options[key] = 'changed' if old != 'changed' else 'changed2'
